@@ -123,6 +123,7 @@ type Case struct {
 	SigMut    string          `json:"sigmut,omitempty"`
 	Algs      []int           `json:"algs,omitempty"`
 	VerKey    string          `json:"verkey,omitempty"`
+	Obs       bool            `json:"obs,omitempty"` // replay of a random observation: explicit bytes, TLC compares
 }
 
 // R is the projected outcome of one operation.
@@ -207,8 +208,17 @@ func serResult(out []byte, err error, want Want, replen int, rt func(out []byte)
 }
 
 func runCase(ci int, c Case, emit func(Result)) {
+	var lastOut []byte
 	res := func(pkg, op string, r R, note string) {
-		emit(Result{Src: "gen", Case: ci, Kind: c.Kind, Pkg: pkg, Op: op, Val: c.Val, R: r, Out: []int{}, Note: note})
+		x := Result{Src: "gen", Case: ci, Kind: c.Kind, Pkg: pkg, Op: op, Val: c.Val, R: r, Out: []int{}, Note: note}
+		if c.Obs && op == "ser" {
+			x.Src, x.Out = "obs", ints(lastOut)
+		}
+		emit(x)
+	}
+	serResult := func(out []byte, err error, want Want, replen int, rt func(out []byte) bool) R {
+		lastOut = out
+		return serResult(out, err, want, replen, rt)
 	}
 	var v Val
 	if c.Kind != "verify" {
